@@ -174,7 +174,7 @@ def plan(prop, tier, seed, budget):
             assumptions=COMMON_ASSUME,
         )
     elif prop == 'C01':
-        sc = ['%d:8:%d:3' % (k, c) for k in (1, 2) for c in range(4)] + ['1:8:0:3:seq4', '2:8:0:3:seq4'] if q else \
+        sc = ['%d:8:%d:3' % (k, c) for k in (1, 2) for c in range(4)] + ['1:8:0:3:seq4', '2:8:0:3:seq4', '1:9:0:8', '2:9:0:8'] if q else \
              ['%d:8:%d:3' % (k, c) for k in (1, 2) for c in range(4)] + ['1:9:0:4', '2:9:0:4', '1:8:0:6', '2:8:0:6',
                                                                           '1:8:0:3:seq5', '2:8:0:3:seq5', '1:8:0:3:seq6', '2:8:0:3:seq6']
         P = dict(
@@ -193,7 +193,7 @@ def plan(prop, tier, seed, budget):
             assumptions=COMMON_ASSUME,
         )
     elif prop == 'C02':
-        sc = ['2:8:0:3', '2:2:0:5', '2:8:1:3'] if q else ['2:8:0:7', '2:3:0:5', '2:9:0:5', '2:8:3:6', '2:2:0:7']
+        sc = ['2:8:0:3', '2:2:0:5', '2:8:1:3', '2:9:0:8'] if q else ['2:8:0:7', '2:3:0:5', '2:9:0:5', '2:8:3:6', '2:2:0:7']
         P = dict(
             level='exploration',
             builds=[('tree', 'asan')] + ([] if q else [('tree', 'rel'), ('tree', 'fuzz')]),
@@ -312,7 +312,7 @@ def plan(prop, tier, seed, budget):
                  ([] if q else [g2_jobs('dlist', 100000, variant='rel'), g3_jobs('dlist', 400000)]),
             py=[] if q else [g3_stats('dlist')],
             rule='case = byte-coded history over 1-3 cstl_dlist lists: push/pop at both ends (pops also on empty), insert after the '
-                 'i-th element, erase, reverse, sort (asc/desc), concat (d != s, occasionally d == s), swap, find in both directions, '
+                 'i-th element, erase, reverse, sort (asc/desc), concat (two distinct lists; a list concatenated onto itself is not documented and not generated), swap, find in both directions, '
                  'foreach with stop, foreach whose callback erases and frees a subset of the visited elements, clear; oracle = reference '
                  'sequence per list audited after every op: size, front, back, forward traversal == sequence, backward traversal == '
                  'mirror, element payload guard words. Non-trivial: during the case some reverse on a list of length 2-3 or swap/concat '
@@ -400,7 +400,7 @@ def plan(prop, tier, seed, budget):
     elif prop == 'C15':
         hs = [('slist', ['1:1:5:closure', '2:1:3:closure'], ['1:2:6:closure', '2:1:5:closure']),
               ('dlist', ['1:1:5:closure', '2:1:4:closure'], ['1:2:6:closure', '2:2:5:closure']),
-              ('tree', ['1:8:0:3', '2:8:0:3'], ['1:8:0:6', '2:8:0:6', '1:9:0:4', '2:9:0:4']),
+              ('tree', ['1:8:0:3', '2:8:0:3', '1:9:0:8', '2:9:0:8'], ['1:8:0:6', '2:8:0:6', '1:9:0:4', '2:9:0:4', '1:4:0:2', '2:4:0:2']),
               ('heap', ['2:0:4'], ['2:0:6', '3:0:5']),
               ('map', ['4:0:5'], ['4:0:7', '4:1:7'])]
         jobs = []
@@ -416,7 +416,7 @@ def plan(prop, tier, seed, budget):
                  'applied both to the cleared container and to a freshly initialised twin; oracle = callback exactly once per contained '
                  'element and for nothing else, ASan (any later touch of a handed-over element is a heap-use-after-free), size 0, and '
                  'identical observable results of cleared container and twin. G1 = clear applied in every reachable state of the small-scope '
-                 'closures (all tree shapes <= 8 nodes, heaps <= 9, lists <= 6, maps <= 8 entries). Non-trivial: clear of a container holding '
+                 'closures (trees: up to 8 nodes over 4 keys with duplicates, and EVERY shape of up to 5 nodes (thorough: 6) from scopes whose distinct keys are at least as many as the nodes; heaps <= 9, lists <= 6, maps <= 8 entries). Non-trivial: clear of a container holding '
                  '>= 3 elements (trees: including a node with two children) followed by reuse operations. Distinct = distinct case bytes.',
             assumptions=COMMON_ASSUME,
         )
